@@ -565,7 +565,14 @@ namespace gtry::scl::strm
 
 	Sop extendStreamMeta(Sop& in, StreamSignal auto& inStream, const WidthManipMetaParams& param)
 	{
-		return { flagInstantSet(in.sop, param.beat.isLast() | eop(inStream)) };
+		// The wide beat starts a packet if one of the beats collected into it does. Remember the sop of beats that have been
+		// transferred already (only a transfer may change this state: the flag must neither look at beats that are not valid
+		// nor forget while the group's last beat is still missing or the wide beat is stalled), forget with the group's last beat.
+		Bit sopSeen;
+		Bit ret = sopSeen | in.sop;
+		ENIF(transfer(inStream))
+			sopSeen = reg(ret & !(param.beat.isLast() | eop(inStream)), '0');
+		return { ret };
 	}
 
 	Empty extendStreamMeta(Empty& in, StreamSignal auto& inStream, const WidthManipMetaParams& param)
